@@ -134,7 +134,7 @@ def _profile(p):
     if k == "cw":
         return fdtdx.SingleFrequencyProfile(**p)
     if k == "gauss":
-        return fdtdx.GaussianPulseProfile(spectral_width=p["spectral_width"], center_wave=_wave(p["center_wave"]))
+        return fdtdx.GaussianPulseProfile(spectral_width=_wave(p["spectral_width"]), center_wave=_wave(p["center_wave"]))
     if k == "custom":
         return fdtdx.CustomTimeSignalProfile(
             signal=jnp.asarray(p["signal"]), time_step_duration=p["time_step_duration"], **{k2: v for k2, v in p.items() if k2 not in ("signal", "time_step_duration")}
@@ -424,3 +424,12 @@ def axis_face_alphabet():
     """All admissible (min,max) combinations on one axis: {none,pec,pmc}^2 + periodic pair + bloch pair."""
     t = ("none", "pec", "pmc")
     return [(a, b) for a in t for b in t] + [("periodic", "periodic"), ("bloch", "bloch")]
+
+
+def time_step_of(spec):
+    """dt of the scene a spec would build (without placing anything)."""
+    grid = make_grid(spec)
+    cfg0 = fdtdx.SimulationConfig(time=1e-15, grid=grid, backend="cpu", dtype=jnp.float64, courant_factor=spec.get("courant", 0.99))
+    if isinstance(grid, fdtdx.RectilinearGrid) or isinstance(grid, fdtdx.UniformGrid):
+        return cfg0.time_step_duration
+    return cfg0.resolve_grid(tuple(spec["shape"])).cfl_time_step(cfg0.courant_factor)
